@@ -243,7 +243,9 @@ class OpenSystem:
                 dat = numpy.zeros((ham.dim,ham.dim),dtype=REAL)
                 for i in range(ham.dim):
                     dat[i,i] = ham._data[i,i]
-                ham_0 = Hamiltonian(data=dat)
+                # dat holds values in internal units
+                with energy_units("int"):
+                    ham_0 = Hamiltonian(data=dat)
                 ham_0.set_rwa(ham.rwa_indices)
 
             else:
@@ -259,7 +261,9 @@ class OpenSystem:
                 dat = numpy.zeros((ham.dim,ham.dim),dtype=REAL)
                 for i in range(ham.dim):
                     dat[i,i] = ham._data[i,i]
-                ham_0 = Hamiltonian(data=dat)
+                # dat holds values in internal units
+                with energy_units("int"):
+                    ham_0 = Hamiltonian(data=dat)
                 ham_0.set_rwa(ham.rwa_indices)
 
             # The Hamiltonian for propagation is the one without
@@ -286,7 +290,9 @@ class OpenSystem:
                 #for i in range(ham.dim):
                 #    dat[i,i] = ham._data[i,i]
                 
-                ham_0 = Hamiltonian(data=dat)
+                # dat holds values in internal units
+                with energy_units("int"):
+                    ham_0 = Hamiltonian(data=dat)
                 
                 # this type of theory has an inhomogeneous term
                 self.has_Iterm = True
@@ -305,7 +311,9 @@ class OpenSystem:
                 dat = numpy.zeros((ham.dim,ham.dim),dtype=REAL)
                 for i in range(ham.dim):
                     dat[i,i] = ham._data[i,i]
-                ham_0 = Hamiltonian(data=dat)
+                # dat holds values in internal units
+                with energy_units("int"):
+                    ham_0 = Hamiltonian(data=dat)
 
             # The Hamiltonian for propagation is the one without
             # resonance coupling
